@@ -26,6 +26,9 @@ def jobs(ctx: Ctx, prop: str) -> List[Dict[str, Any]]:
     for k in range(ctx.pick(6, 40)):       # medium graphs: sampled pairs by class, certificate
         items.append({"id": f"medium{base + k}", "kind": "routes", "net": "gen", "nodes": 20 + 8 * (k % 6), "seed": 32000 + base + k,
                       "n": ctx.pick(120, 400), "snaps": 40, "weight": 3})
+    for k in range(ctx.pick(6, 30)):       # near ties at several scales: a straight street against a marginally faster dog-leg
+        items.append({"id": f"dogleg{base + k}", "kind": "routes", "net": "dogleg", "scale_km": [4.0, 8.0, 20.0][k % 3],
+                      "seed": 36000 + base + k, "all_pairs": True, "n": 0, "snaps": 10, "weight": 1})
     items.append({"id": "denver", "kind": "routes", "net": "file", "path": str(SCEN_DENVER / "road_network" / "downtown_denver_network.json"),
                   "seed": 33000 + base, "n": ctx.pick(320, 2400), "snaps": ctx.pick(150, 1000), "weight": 8})
     if not ctx.quick:
